@@ -166,9 +166,15 @@ def body_roundtrip(case):
     with cut("NssConfig(**generated fields)"):
         c = NssConfig(**case["config"])
     tmp = tempfile.mkdtemp(prefix="nssverif_c15_")
+    import contextlib as _cl
+
+    # (the caller's numpy print options are not the defaults in a third of the cases: the text written for a number
+    # must not depend on them)
+    pm = case.get("print_mode")
+    ctx_ = np.printoptions(legacy="1.13", precision=3) if pm == "legacy" else (np.printoptions(precision=2, floatmode="fixed") if pm == "short" else _cl.nullcontext())
     try:
         path = os.path.join(tmp, "c.toml")
-        with cut("create_toml"):
+        with cut("create_toml"), ctx_:
             create_toml(path, c)
         with cut("config_from_toml"):
             r = config_from_toml(path)
@@ -521,7 +527,7 @@ freq_unit = st.sampled_from([None, None, "MHz", "GHz", "kHz", "Hz"])
 SUBCHECKS = [
     SubCheck(
         "roundtrip",
-        st.fixed_dictionaries({"config": config_dict()}),
+        st.fixed_dictionaries({"config": config_dict(), "print_mode": st.sampled_from([None, None, "legacy", "short"])}),
         body_roundtrip,
         lambda labels: ">=5_non_default" in labels and "string_needs_escaping" in labels,
         {"quick": 400, "thorough": 20000},
